@@ -304,6 +304,14 @@ func (f vFixedIntrospector) IntrospectRemoteSchemas(urls ...string) ([]*ast.Sche
 	return f.res, nil
 }
 
+func vMustSchema(sdl string) *ast.Schema {
+	sc, err := gqlparser.LoadSchema(&ast.Source{Name: "svc", Input: sdl})
+	if err != nil {
+		panic("harness: scenario schema does not load: " + err.Error())
+	}
+	return sc
+}
+
 func vNewFed(w *vWorld, opts []GatewayOption, sdls ...string) *vFed {
 	f := &vFed{w: w}
 	var urls []string
